@@ -589,6 +589,30 @@ Proof.
   repeat brk; lra.
 Qed.
 
+Lemma cap_bubble F V y mol n p : 0 <= F -> 0 <= V -> (forall q, 0 <= nthq y q) -> 0 <= nthq mol p ->
+  (p < n)%nat -> length mol = n ->
+  0 <= nthq (capv (vscale (F * V) (fit n y)) mol) p <= nthq mol p.
+Proof.
+  intros HF HV Hy Hm Hp L.
+  assert (L' : length (vscale (F * V) (fit n y)) = length mol) by (rewrite vscale_length, fit_length; auto).
+  destruct (capv_le _ mol p ltac:(lia) L') as (A & [B|B]).
+  - split; [|exact A]. rewrite B. rewrite nthq_vscale, nthq_fit by exact Hp. specialize (Hy p).
+    apply Qmult_le_0_compat; [apply Qmult_le_0_compat|]; auto.
+  - split; [|exact A]. rewrite B. exact Hm.
+Qed.
+Lemma cap_dew F V x mol n p : 0 <= F -> V <= 1 -> (forall q, 0 <= nthq x q) -> 0 <= nthq mol p ->
+  (p < n)%nat -> length mol = n ->
+  0 <= nthq (vsub mol (capv (vscale (F * (1 - V)) (fit n x)) mol)) p <= nthq mol p.
+Proof.
+  intros HF HV Hx Hm Hp L.
+  assert (L' : length (vscale (F * (1 - V)) (fit n x)) = length mol) by (rewrite vscale_length, fit_length; auto).
+  rewrite nthq_vsub by (unfold capv; rewrite map2_length; lia).
+  destruct (capv_le _ mol p ltac:(lia) L') as (A & [B|B]).
+  - split; [lra|]. rewrite B. rewrite nthq_vscale, nthq_fit by exact Hp. specialize (Hx p).
+    assert (0 <= F * (1 - V) * nthq x p) by (apply Qmult_le_0_compat; [apply Qmult_le_0_compat|]; auto; lra). lra.
+  - split; lra.
+Qed.
+
 Definition comps_nn : Prop :=
   forall k p, 0 <= nthq (snd (o_bubble orc k)) p /\ 0 <= nthq (snd (o_dew orc k)) p.
 
@@ -607,31 +631,20 @@ Proof.
   all: unfold solve_v; red1.
   all: repeat brk; red1; rauto.
   all: try (destruct (o_iq orc _) as [pts X]; red1;
-            destruct (evals_v orc c pts _ _) as [m' v'] eqn:EV; red1;
-            pose proof (evals_v_ms pts (tick (tick (tick (tick m)))) (clipv (o_v orc (S (S (S (mk m))))) (molv c))) as E1;
-            pose proof (evals_v_clipped pts (tick (tick (tick (tick m)))) (clipv (o_v orc (S (S (S (mk m))))) (molv c))) as E2;
-            rewrite EV in E1, E2; cbn [fst snd] in E1, E2; rewrite E1; red1;
+            match goal with |- context [evals_v orc c pts ?m0 ?v0] =>
+              pose proof (evals_v_ms pts m0 v0) as E1;
+              pose proof (evals_v_clipped pts m0 v0) as E2;
+              destruct (evals_v orc c pts m0 v0) as [m' v'] eqn:EV end;
+            cbn [fst snd] in E1, E2; red1; rewrite E1; red1;
             apply reach_set_flows_clipped; [apply E2; eexists; reflexivity|]; repeat brk; rauto; fail).
   (* bubble-side and dew-side boundary branches *)
-  all: apply reach_set_flows; [repeat brk; rauto|].
+  all: apply reach_set_flows; [assumption|repeat brk; rauto|].
   all: intros H N M p Hp.
   all: specialize (HV' H); specialize (HC H); specialize (HF H); specialize (M p).
-  - assert (L : length (vscale (Fmol c * adj_V c V) (fit (length (idx c)) yb)) = length (molv c))
-      by (rewrite vscale_length, fit_length; auto).
-    destruct (capv_le _ (molv c) p ltac:(lia) L) as (A & [B|B]).
-    + split; [|exact A]. rewrite B. rewrite nthq_vscale, nthq_fit by exact Hp.
-      destruct (HC (mk m) p) as (C1 & _). rewrite EB0 in C1. cbn [snd] in C1. nra.
-    + split; [|exact A]. rewrite B. exact M.
-  - assert (L : length (vscale (Fmol c * (1 - adj_V c V)) (fit (length (idx c)) xd)) = length (molv c))
-      by (rewrite vscale_length, fit_length; auto).
-    rewrite nthq_vsub by (unfold capv; rewrite map2_length; lia).
-    destruct (capv_le _ (molv c) p ltac:(lia) L) as (A & [B|B]).
-    + split; [|].
-      * lra.
-      * rewrite B. rewrite nthq_vscale, nthq_fit by exact Hp.
-        destruct (HC (S (mk m)) p) as (_ & C1). rewrite ED in C1. cbn [snd] in C1.
-        assert (0 <= Fmol c * (1 - adj_V c V) * nthq xd p) by nra. lra.
-    + split; lra.
+  all: first [ apply cap_bubble; auto; try lra; intros q0;
+               destruct (HC (mk m) q0) as (C1 & _); rewrite EB0 in C1; exact C1
+             | apply cap_dew; auto; try lra; intros q0;
+               destruct (HC (S (mk m)) q0) as (_ & C1); rewrite ED in C1; exact C1 ].
 Qed.
 
 Lemma herr_eval_reach T P m : R (ms m) -> R (ms (fst (herr_eval orc c T P m))).
@@ -722,3 +735,433 @@ Proof.
 Qed.
 
 End Wrappers.
+
+(* ------------------------------------------------------------------ part 4b: setup + wrapper *)
+Lemma qsum_nonneg v : (forall p, 0 <= nthq v p) -> 0 <= qsum v.
+Proof.
+  induction v as [|x t IH]; intros H; simpl; [lra|].
+  assert (0 <= x) by (apply (H 0%nat)).
+  assert (0 <= qsum t) by (apply IH; intros p; apply (H (S p))). lra.
+Qed.
+
+Definition nsol_nn (cf : cfg) : Prop := forall k, 0 <= nthq (nsol cf) k.
+
+Lemma nthq_nn_gather ix a : (forall k, 0 <= nthq a k) -> forall p, 0 <= nthq (gather ix a) p.
+Proof.
+  intros H p. destruct (Nat.lt_ge_cases p (length ix)) as [L|G].
+  - rewrite nthq_gather by exact L. apply H.
+  - rewrite nthq_over by (rewrite gather_length; exact G). lra.
+Qed.
+
+Lemma setup_Fmol_nn cf s s1 c : wf s -> nn s -> nsol_nn cf -> setup cf s = SOk s1 c -> 0 <= Fmol c.
+Proof.
+  intros W N NS H. unfold setup in H.
+  destruct (negb (anynz (vadd (liq s) (vap s)))); [discriminate|].
+  destruct (negb (anynz (gather (vle_idx cf (vadd (liq s) (vap s))) (vadd (liq s) (vap s))))); [discriminate|].
+  match type of H with (if ?b then _ else _) = _ => destruct b; [discriminate|] end.
+  inversion H; subst; clear H. cbn [Fmol].
+  assert (M : forall k, 0 <= nthq (vadd (liq s) (vap s)) k).
+  { intros k. rewrite nthq_vadd by exact W. destruct (N k). lra. }
+  assert (A : 0 <= qsum (gather (vle_idx cf (vadd (liq s) (vap s))) (vadd (liq s) (vap s))))
+    by (apply qsum_nonneg; apply nthq_nn_gather; exact M).
+  assert (B : 0 <= qsum (gather (idx_of cf KLight (length (liq s))) (vadd (liq s) (vap s))))
+    by (apply qsum_nonneg; apply nthq_nn_gather; exact M).
+  assert (C : 0 <= qsum (vmul (gather (idx_of cf KHeavy (length (liq s))) (vadd (liq s) (vap s)))
+                              (gather (idx_of cf KHeavy (length (liq s))) (nsol cf)))).
+  { apply qsum_nonneg. intros p.
+    destruct (Nat.lt_ge_cases p (length (idx_of cf KHeavy (length (liq s))))) as [L|G].
+    - rewrite nthq_vmul by (rewrite !gather_length; reflexivity).
+      apply Qmult_le_0_compat; apply nthq_nn_gather; auto.
+    - rewrite nthq_over; [lra|]. unfold vmul. rewrite map2_length by (rewrite !gather_length; reflexivity).
+      rewrite gather_length. exact G. }
+  lra.
+Qed.
+
+Lemma setup_molv_nn cf s s1 c : wf s -> nn s -> setup cf s = SOk s1 c -> molv_nn c.
+Proof.
+  intros W N H. destruct (setup_ok cf s s1 c W H) as (_ & (W1 & _) & _ & _ & _ & M).
+  intros p. destruct (Nat.lt_ge_cases p (length (idx c))) as [L|G].
+  - rewrite (M p L). unfold mol0. destruct (N (nth p (idx c) 0%nat)). lra.
+  - rewrite nthq_over by lia. lra.
+Qed.
+
+(* outcome of one wrapper call seen from the initial stream *)
+Record post (hyp : Prop) (cf : cfg) (s0 : vst) (r : vres mach) : Prop := mkpost {
+  p_same : same_lg s0 (ms (om r));
+  p_wf : wf (ms (om r));
+  p_nn : hyp -> nn s0 -> nn (ms (om r));
+  p_placed : nn s0 -> (match r with VOk _ => True | VErr VNoEq _ => True | _ => False end) -> placed cf (ms (om r))
+}.
+
+Lemma zero_placed cf s : (forall k, nthq (liq s) k == 0 /\ nthq (vap s) k == 0) -> placed cf s.
+Proof. intros Z k _. destruct (Z k). split; auto. Qed.
+
+Lemma post_of_setup hyp cf m r :
+  wf (ms m) ->
+  (forall s1 c, setup cf (ms m) = SOk s1 c -> reach hyp c s1 (ms (om r))) ->
+  (forall s, setup cf (ms m) = SNoEq s -> r = VErr VNoEq (mset m s)) ->
+  (forall e s, setup cf (ms m) = SErr e s -> r = VErr e (mset m s)) ->
+  post hyp cf (ms m) r.
+Proof.
+  intros W HOk HNo HErr.
+  destruct (setup cf (ms m)) as [s1 c|s|e s] eqn:E.
+  - specialize (HOk s1 c eq_refl).
+    destruct (setup_ok cf _ s1 c W E) as (E1 & WC & K & _ & _ & _).
+    pose proof (reach_good hyp c s1 _ WC HOk) as G.
+    pose proof (good_same c s1 _ WC G) as S.
+    assert (S0 : same_lg (ms m) s1) by (rewrite E1; apply reloc_same; exact W).
+    split.
+    + eapply same_lg_trans; eauto.
+    + destruct S as (A & B & _). destruct WC as (_ & _ & _ & W4 & _). unfold wf in *. congruence.
+    + intros H N. eapply reach_nn; eauto.
+      * rewrite E1. apply reloc_nn; auto.
+      * eapply setup_molv_nn; eauto.
+    + intros N _. eapply good_placed; eauto. rewrite E1. apply reloc_placed; exact W.
+  - rewrite (HNo s eq_refl). cbn [om ms mset].
+    destruct (setup_noeq cf _ _ E) as [E1|E1]; subst s.
+    + split; auto using same_lg_refl.
+      intros N _. destruct (setup_noeq_zero cf _ E W N) as [Z|Z].
+      * apply zero_placed; exact Z.
+      * rewrite Z. apply reloc_placed; exact W.
+    + split.
+      * apply reloc_same; exact W.
+      * apply reloc_wf; exact W.
+      * intros _ N. apply reloc_nn; auto.
+      * intros _ _. apply reloc_placed; exact W.
+  - rewrite (HErr e s eq_refl). cbn [om ms mset].
+    rewrite (setup_err cf _ _ _ E). split.
+    + apply reloc_same; exact W.
+    + apply reloc_wf; exact W.
+    + intros _ N. apply reloc_nn; auto.
+    + intros _ F. destruct e; try contradiction. apply reloc_placed; exact W.
+Qed.
+
+Section Calls.
+Variable hyp : Prop.
+Variable cf : cfg.
+Variable orc : oracle.
+
+Ltac brk := match goal with
+  | |- context [if ?x then _ else _] => destruct x eqn:?
+  end.
+Ltac red1 := cbn [ms mset tick mk fst snd om].
+Ltac rauto := repeat first [ assumption | apply r_T | apply r_P | apply reach_all_vap | apply reach_all_liq
+                           | apply reach_solve_flows | apply r_refl ].
+Ltac setup_cases E := intros; rewrite E; reflexivity.
+
+Lemma set_TP_post T P m : wf (ms m) -> post hyp cf (ms m) (set_TP cf orc T P m).
+Proof.
+  intros W. apply post_of_setup; auto.
+  - intros s1 c E. destruct (setup_ok cf _ s1 c W E) as (_ & WC & _). pose proof WC as (L & _).
+    unfold set_TP. rewrite E. red1. unfold call_dew, call_bubble, solve_v.
+    repeat brk; red1; rauto; try (apply tp_chemical_reach; rauto).
+    all: destruct (o_dew orc (mk m)) as [Pd xd]; red1; repeat brk; red1; rauto.
+    all: destruct (o_bubble orc (S (mk m))) as [Pb yb]; red1; repeat brk; red1; rauto.
+  - intros s E. unfold set_TP. rewrite E. reflexivity.
+  - intros e s E. unfold set_TP. rewrite E. reflexivity.
+Qed.
+
+Lemma set_TV_post T V m : wf (ms m) -> (hyp -> 0 <= V <= 1 /\ comps_nn orc /\ nsol_nn cf /\ nn (ms m)) ->
+  post hyp cf (ms m) (set_TV cf orc T V m).
+Proof.
+  intros W HH. apply post_of_setup; auto.
+  - intros s1 c E. destruct (setup_ok cf _ s1 c W E) as (_ & WC & _). pose proof WC as (L & _).
+    unfold set_TV. rewrite E. red1.
+    repeat brk; red1; rauto.
+    + apply tv_chemical_reach; rauto. intros H. apply HH; exact H.
+    + apply set_XV_multi_reach; rauto; intros H; destruct (HH H) as (A & B & C & D); auto.
+      eapply setup_Fmol_nn; eauto.
+  - intros s E. unfold set_TV. rewrite E. reflexivity.
+  - intros e s E. unfold set_TV. rewrite E. reflexivity.
+Qed.
+
+Lemma set_PV_post P V m : wf (ms m) -> (hyp -> 0 <= V <= 1 /\ comps_nn orc /\ nsol_nn cf /\ nn (ms m)) ->
+  post hyp cf (ms m) (set_PV cf orc P V m).
+Proof.
+  intros W HH. apply post_of_setup; auto.
+  - intros s1 c E. destruct (setup_ok cf _ s1 c W E) as (_ & WC & _). pose proof WC as (L & _).
+    unfold set_PV. rewrite E. red1.
+    repeat brk; red1; rauto.
+    + apply pv_chemical_reach; rauto. intros H. apply HH; exact H.
+    + apply set_XV_multi_reach; rauto; intros H; destruct (HH H) as (A & B & C & D); auto.
+      eapply setup_Fmol_nn; eauto.
+  - intros s E. unfold set_PV. rewrite E. reflexivity.
+  - intros e s E. unfold set_PV. rewrite E. reflexivity.
+Qed.
+
+Lemma set_TH_post T H m : wf (ms m) -> post hyp cf (ms m) (set_TH cf orc T H m).
+Proof.
+  intros W. apply post_of_setup; auto.
+  - intros s1 c E. destruct (setup_ok cf _ s1 c W E) as (_ & WC & _). pose proof WC as (L & _).
+    unfold set_TH. rewrite E. red1. unfold call_dew, call_bubble, call_xH.
+    repeat brk; red1; rauto; try (apply th_chemical_reach; rauto).
+    all: destruct (o_dew orc (mk m)) as [Pd xd]; red1; repeat brk; red1; rauto.
+    all: destruct (o_bubble orc _) as [Pb yb]; red1; repeat brk; red1; rauto.
+    all: destruct (o_iq orc _) as [pts Px]; red1; rauto.
+    all: apply evals_h_reach; red1; rauto.
+  - intros s E. unfold set_TH. rewrite E. reflexivity.
+  - intros e s E. unfold set_TH. rewrite E. reflexivity.
+Qed.
+
+Lemma set_PH_post ent P H m : wf (ms m) -> post hyp cf (ms m) (set_PH cf orc ent P H m).
+Proof.
+  intros W. apply post_of_setup; auto.
+  - intros s1 c E. destruct (setup_ok cf _ s1 c W E) as (_ & WC & _).
+    pose proof WC as (L & ND & RG & W1 & _).
+    unfold set_PH. rewrite E. red1. unfold call_dew, call_bubble, call_xH, call_solveT.
+    repeat brk; red1; rauto; try (apply ph_chemical_reach; rauto).
+    all: destruct (o_bubble orc (mk m)) as [Tb yb]; red1; repeat brk; red1; rauto.
+    all: destruct (o_dew orc _) as [Td xd]; red1; repeat brk; red1; rauto.
+    all: repeat match goal with
+         | |- context [herr_eval ?o ?c0 ?T ?P ?m0] =>
+           let m' := fresh "m'" in let h := fresh "h" in let EV := fresh "EV" in
+           pose proof (herr_eval_reach hyp c0 o s1 L T P m0);
+           destruct (herr_eval o c0 T P m0) as [m' h] eqn:EV; cbn [fst snd] in *
+         end.
+    all: repeat brk; red1.
+    all: try (destruct (o_iq orc _) as [pts Tx]; red1).
+    all: apply correct_reach; auto.
+    all: try (apply evals_h_reach; auto; red1).
+    all: repeat match goal with
+         | HH : reach _ _ _ _ -> reach _ _ _ (ms ?x) |- reach _ _ _ (ms ?x) => apply HH
+         | |- reach _ _ _ (ms (fst (herr_eval _ _ _ _ _))) => apply herr_eval_reach; auto
+         end.
+    all: red1; rauto.
+  - intros s E. unfold set_PH. rewrite E. reflexivity.
+  - intros e s E. unfold set_PH. rewrite E. reflexivity.
+Qed.
+
+End Calls.
+
+Section Calls2.
+Variable hyp : Prop.
+Variable cf : cfg.
+Variable orc : oracle.
+Ltac red1 := cbn [ms mset tick mk fst snd om].
+Ltac rauto := repeat first [ assumption | apply r_T | apply r_P | apply r_refl ].
+
+(* what the x / y specifications need for non-negativity: the lever-rule vapour flows lie in [0, mol] *)
+Definition xy_ok (bubble : bool) (comp : vec) (m : mach) : Prop :=
+  forall s1 c, setup cf (ms m) = SOk s1 c ->
+    let n := length (idx c) in
+    if bubble then lever_ok c comp (fit n (snd (o_bubble orc (mk m))))
+    else lever_ok c (fit n (snd (o_dew orc (mk m)))) comp.
+
+Lemma set_xy_post bubble specT sv comp m : wf (ms m) -> (hyp -> xy_ok bubble comp m) ->
+  post hyp cf (ms m) (set_xy cf orc bubble specT sv comp m).
+Proof.
+  intros W HH. apply post_of_setup; auto.
+  - intros s1 c E. destruct (setup_ok cf _ s1 c W E) as (_ & WC & _). pose proof WC as (L & _).
+    unfold set_xy. rewrite E. red1.
+    destruct (negb (cN c =? 2)); red1; rauto.
+    unfold call_bubble, call_dew.
+    destruct bubble; red1.
+    + destruct (o_bubble orc (mk m)) as [a y] eqn:EB. red1.
+      apply lever_reach; auto.
+      * intros H. specialize (HH H s1 c E). cbn zeta in HH. rewrite EB in HH. exact HH.
+      * red1. destruct specT; rauto.
+    + destruct (o_dew orc (mk m)) as [a y] eqn:EB. red1.
+      apply lever_reach; auto.
+      * intros H. specialize (HH H s1 c E). cbn zeta in HH. rewrite EB in HH. exact HH.
+      * red1. destruct specT; rauto.
+  - intros s E. unfold set_xy. rewrite E. reflexivity.
+  - intros e s E. unfold set_xy. rewrite E. reflexivity.
+Qed.
+
+(* hypotheses of the non-negativity theorem, per specification *)
+Definition vle_hyp (sp : spec) (s : vst) : Prop :=
+  match sp with
+  | SpTV _ V | SpPV _ V => 0 <= V <= 1 /\ comps_nn orc /\ nsol_nn cf
+  | SpTx _ x | SpPx _ x => xy_ok true x (mkm s 0)
+  | SpTy _ y | SpPy _ y => xy_ok false y (mkm s 0)
+  | _ => True
+  end.
+
+Lemma post_catch hyp' s0 r f :
+  (forall s, same_lg s (f s) /\ (wf s -> wf (f s)) /\ (nn s -> nn (f s)) /\ (placed cf s -> placed cf (f s))) ->
+  post hyp' cf s0 r -> post hyp' cf s0 (catch_noeq r f).
+Proof.
+  intros F [A B C D]. destruct r as [m'|e m']; [split; auto|].
+  destruct e; try (split; auto; fail).
+  cbn [catch_noeq om ms mset] in *. destruct (F (ms m')) as (F1 & F2 & F3 & F4). split; auto.
+  - eapply same_lg_trans; eauto.
+Qed.
+
+Lemma thermal_ok (f : vst -> vst) :
+  (forall s, liq (f s) = liq s /\ vap (f s) = vap s /\ oth (f s) = oth s) ->
+  forall s, same_lg s (f s) /\ (wf s -> wf (f s)) /\ (nn s -> nn (f s)) /\ (placed cf s -> placed cf (f s)).
+Proof.
+  intros F s. destruct (F s) as (A & B & C).
+  unfold same_lg, wf, nn, placed, mol0. rewrite A, B, C. repeat split; auto; try (intros; reflexivity).
+  all: intros; apply H; auto.
+Qed.
+
+Lemma vle_call_post sp s :
+  wf s -> (hyp -> nn s /\ vle_hyp sp s) -> post hyp cf s (vle_call cf orc sp (mkm s 0)).
+Proof.
+  intros W HH. change s with (ms (mkm s 0)) at 1.
+  destruct sp; cbn [vle_call].
+  - apply post_catch; [apply thermal_ok; intros; auto|]. apply set_TP_post; auto.
+  - apply post_catch; [apply thermal_ok; intros; auto|]. apply set_TV_post; auto.
+    intros H. destruct (HH H) as (N & A & B & C). auto.
+  - apply set_TH_post; auto.
+  - apply set_TH_post; auto.
+  - apply set_xy_post; auto. intros H. apply (HH H).
+  - apply set_xy_post; auto. intros H. apply (HH H).
+  - apply post_catch; [apply thermal_ok; intros; auto|]. apply set_PV_post; auto.
+    intros H. destruct (HH H) as (N & A & B & C). auto.
+  - apply post_catch; [apply thermal_ok; intros; auto|]. apply set_PH_post; auto.
+  - (* set_PS, tried twice *)
+    pose proof (set_PH_post hyp cf orc true P Sv (mkm s 0) W) as P1.
+    destruct (set_PH cf orc true P Sv (mkm s 0)) as [m1|e m1] eqn:E1; [exact P1|].
+    destruct P1 as [A B C D]. cbn [om] in *.
+    pose proof (set_PH_post hyp cf orc true P Sv m1 B) as P2.
+    apply (post_catch hyp (ms m1) _ (fun s => with_P s P)) in P2; [|apply thermal_ok; intros; auto].
+    destruct P2 as [A2 B2 C2 D2]. split; auto.
+    + eapply same_lg_trans; eauto.
+    + intros N F. apply D2; auto.
+      (* non-negativity of the state the first attempt left: set_PS needs no outside hypothesis for it *)
+      pose proof (set_PH_post True cf orc true P Sv (mkm s 0) W) as PT. rewrite E1 in PT.
+      destruct PT as [_ _ CT _]. apply CT; auto.
+  - apply set_xy_post; auto. intros H. apply (HH H).
+  - apply set_xy_post; auto. intros H. apply (HH H).
+Qed.
+End Calls2.
+
+(* ------------------------------------------------------------------ part 4c: the VLE theorems *)
+Lemma vle_ok_call cf orc sp st st' : vle cf orc sp st = VOk st' ->
+  exists m, vle_call cf orc sp (mkm st 0) = VOk m /\ ms m = st'.
+Proof.
+  unfold vle. destruct (vle_call cf orc sp (mkm st 0)) as [m|e m]; intros H; inversion H. eauto.
+Qed.
+
+Lemma vle_conserve_lemma cf orc sp st st' : wf st -> vle cf orc sp st = VOk st' ->
+  (forall k, tot st' k == tot st k) /\
+  length (liq st') = length (liq st) /\ length (vap st') = length (vap st) /\ oth st' = oth st.
+Proof.
+  intros W H. destruct (vle_ok_call _ _ _ _ _ H) as (m & E & <-).
+  pose proof (vle_call_post False cf orc sp st W ltac:(intros [])) as [A _ _ _].
+  rewrite E in A. cbn [om] in A. destruct A as (A1 & A2 & A3 & A4). repeat split; auto.
+  intros k. unfold tot. rewrite A3. specialize (A4 k). unfold mol0 in A4. lra.
+Qed.
+
+Lemma vle_nonneg_lemma cf orc sp st st' : wf st -> nn st -> vle_hyp cf orc sp st ->
+  vle cf orc sp st = VOk st' -> nn st'.
+Proof.
+  intros W N HH H. destruct (vle_ok_call _ _ _ _ _ H) as (m & E & <-).
+  pose proof (vle_call_post True cf orc sp st W ltac:(auto)) as [_ _ C _].
+  rewrite E in C. cbn [om] in C. auto.
+Qed.
+
+Lemma vle_placed_lemma cf orc sp st st' : wf st -> nn st -> vle cf orc sp st = VOk st' ->
+  forall k, (k < length (liq st))%nat ->
+    (is_light cf k -> nthq (liq st') k == 0 /\ nthq (vap st') k == nthq (liq st) k + nthq (vap st) k) /\
+    (is_heavy cf k -> nthq (vap st') k == 0 /\ nthq (liq st') k == nthq (liq st) k + nthq (vap st) k).
+Proof.
+  intros W N H k L. destruct (vle_ok_call _ _ _ _ _ H) as (m & E & <-).
+  pose proof (vle_call_post False cf orc sp st W ltac:(intros [])) as [A _ _ D].
+  rewrite E in A, D. cbn [om] in A, D. specialize (D N I).
+  destruct A as (A1 & A2 & A3 & A4). rewrite <- A1 in L. destruct (D k L) as (D1 & D2).
+  specialize (A4 k). unfold mol0 in A4.
+  split; intros K.
+  - specialize (D1 K). split; [exact D1|lra].
+  - specialize (D2 K). split; [exact D2|lra].
+Qed.
+
+(* ------------------------------------------------------------------ part 5: LLE, SLE *)
+Lemma lle_idx_props islle mol i : In i (lle_idx islle mol) -> (i < length mol)%nat.
+Proof. intros H. unfold lle_idx in H. apply filter_seq_lt in H. tauto. Qed.
+
+Lemma lle_conserve_lemma islle o s s' : length (l_l s) = length (l_L s) -> lle_call islle o s = Ok s' ->
+  length (l_l s') = length (l_l s) /\ length (l_L s') = length (l_L s) /\
+  forall k, nthq (l_l s') k + nthq (l_L s') k == nthq (l_l s) k + nthq (l_L s) k.
+Proof.
+  intros W H. unfold lle_call in H.
+  set (pooled := vadd (l_l s) (l_L s)) in *.
+  set (zero := vzero (length (l_l s))) in *.
+  set (ix := lle_idx islle pooled) in *.
+  assert (Lp : length pooled = length (l_l s)) by (apply vadd_len; exact W).
+  assert (PK : forall k, nthq pooled k == nthq (l_l s) k + nthq (l_L s) k) by (intros; apply nthq_vadd; exact W).
+  destruct (nzb (qsum (gather ix pooled)) && (1 <? length ix)%nat) eqn:E0.
+  2:{ inversion H; subst; cbn [l_l l_L]. unfold zero. rewrite vzero_length. repeat split; auto; try lia.
+      intros k. rewrite nthq_vzero, PK. lra. }
+  apply andb_prop in E0. destruct E0 as (E0 & _). unfold nzb in E0. apply negb_true_iff in E0. apply qzerob_false in E0.
+  set (F := qsum (gather ix pooled)) in *.
+  set (z := vdivs (gather ix pooled) F) in *.
+  assert (Lz : length z = length ix) by (unfold z; rewrite vdivs_length, gather_length; reflexivity).
+  match type of H with bind ?r _ = _ => destruct r as [[ml mL]|e] eqn:ER; [|discriminate] end.
+  cbn [bind] in H.
+  assert (SUM : length ml = length ix /\ length mL = length ix /\ forall p, (p < length ix)%nat -> nthq ml p + nthq mL p == nthq z p).
+  { destruct (lo_cache o).
+    - destruct (qleb 1 (lo_phi o)).
+      + inversion ER; subst. rewrite vscale_length. repeat split; auto. intros p Hp. rewrite nthq_vscale. lra.
+      + destruct (existsb _ _); [discriminate|]. inversion ER; subst.
+        assert (L1 : length (vscale (lo_phi o) (map2 (fun zk k => zk * k / (lo_phi o * k + (1 - lo_phi o))) z (fit (length ix) (lo_K o)))) = length ix).
+        { rewrite vscale_length, map2_length by (rewrite fit_length; auto). auto. }
+        split; [exact L1|]. split; [rewrite vsub_len; congruence|].
+        intros p Hp. rewrite nthq_vsub by congruence. lra.
+    - inversion ER; subst. rewrite vsub_len by (rewrite fit_length; auto). rewrite fit_length. repeat split; auto.
+      intros p Hp. rewrite nthq_vsub by (rewrite fit_length; auto). lra. }
+  destruct SUM as (L1 & L2 & SUM).
+  match type of H with (let (_, _) := if ?b then _ else _ in _) = _ => destruct b end.
+  all: inversion H; subst; cbn [l_l l_L]; rewrite !scatter_length; unfold zero at 1; rewrite vzero_length.
+  all: split; [reflexivity|]; split; [lia|]; intros k.
+  all: destruct (Nat.lt_ge_cases k (length (l_l s))) as [L|G];
+       [|rewrite !nthq_over by (rewrite ?scatter_length; unfold zero; rewrite ?vzero_length; lia); reflexivity].
+  all: rewrite !nthq_scatter by (unfold zero; rewrite ?vzero_length; lia).
+  all: destruct (pos k ix) as [p|] eqn:EP; [|unfold zero; rewrite nthq_vzero, PK; lra].
+  all: pose proof (pos_some _ _ _ EP) as (Hp & Hk); rewrite !nthq_vscale.
+  all: assert (ZP : nthq z p * F == nthq pooled k)
+         by (unfold z; rewrite nthq_vdivs, nthq_gather by exact Hp; rewrite Hk; field; exact E0).
+  all: specialize (SUM p Hp); rewrite <- PK, <- ZP; nra.
+Qed.
+
+Lemma sle_update_lemma ix j msol x s s' : (j < length (s_l s))%nat -> length (s_l s) = length (s_s s) ->
+  sle_update ix j msol x s = Ok s' ->
+  length (s_l s') = length (s_l s) /\ length (s_s s') = length (s_s s) /\
+  (forall k, k <> j -> nthq (s_l s') k = nthq (s_l s) k /\ nthq (s_s s') k = nthq (s_s s) k) /\
+  nthq (s_l s') j + nthq (s_s s') j == msol /\
+  (0 <= qsum (gather ix (s_l s)) - nthq (s_l s) j -> 0 < msol -> 0 <= nthq (s_l s') j <= msol).
+Proof.
+  intros Lj W H. unfold sle_update in H.
+  set (F := qsum (gather ix (s_l s)) - nthq (s_l s) j) in *.
+  destruct (qzerob (F + msol)) eqn:E0; [discriminate|]. apply qzerob_false in E0.
+  assert (Lj' : (j < length (s_s s))%nat) by lia.
+  destruct (qltb x 0) eqn:E1; [|destruct (qleb (msol / (F + msol)) x) eqn:E2; [|destruct (qzerob (1 - x)) eqn:E3; [discriminate|]]].
+  all: inversion H; subst; cbn [s_l s_s]; rewrite !upd_length.
+  all: split; [reflexivity|]; split; [reflexivity|]; split;
+       [intros k Hk; rewrite !nth_upd_other by auto; auto|].
+  all: rewrite !nth_upd_same by assumption.
+  - split; [lra|]. intros; lra.
+  - split; [lra|]. intros; lra.
+  - split; [lra|]. intros HF HM. apply qltb_false in E1. apply qleb_false in E2. apply qzerob_false in E3.
+    assert (D : 0 < F + msol) by lra.
+    assert (X : x * (F + msol) < msol).
+    { apply (Qmult_lt_r _ _ (F + msol)) in E2; [|exact D].
+      assert (msol / (F + msol) * (F + msol) == msol) by (field; lra). lra. }
+    assert (X1 : x < 1) by nra.
+    assert (D1 : 0 < 1 - x) by lra.
+    split.
+    + apply Qle_shift_div_l; [exact D1|]. nra.
+    + apply Qle_shift_div_r; [exact D1|]. nra.
+Qed.
+
+Lemma sle_T_chemical_lemma j T Tm s s' : (j < length (s_l s))%nat -> length (s_l s) = length (s_s s) ->
+  sle_T_chemical j T Tm s = Ok s' ->
+  (forall k, k <> j -> nthq (s_l s') k = nthq (s_l s) k /\ nthq (s_s s') k = nthq (s_s s) k) /\
+  nthq (s_l s') j + nthq (s_s s') j == nthq (s_l s) j + nthq (s_s s) j.
+Proof.
+  intros Lj W H. unfold sle_T_chemical in H. assert (Lj' : (j < length (s_s s))%nat) by lia.
+  destruct (qzerob _); [discriminate|]. destruct (qltb Tm T); inversion H; subst; cbn [s_l s_s].
+  all: split; [intros k Hk; rewrite !nth_upd_other by auto; auto|rewrite !nth_upd_same by assumption; lra].
+Qed.
+
+Lemma sle_H_chemical_lemma j H Tm Hl Hs Ts s s' : (j < length (s_l s))%nat -> length (s_l s) = length (s_s s) ->
+  sle_H_chemical j H Tm Hl Hs Ts s = Ok s' ->
+  (forall k, k <> j -> nthq (s_l s') k = nthq (s_l s) k /\ nthq (s_s s') k = nthq (s_s s) k) /\
+  nthq (s_l s') j + nthq (s_s s') j == nthq (s_l s) j + nthq (s_s s) j.
+Proof.
+  intros Lj W E. unfold sle_H_chemical in E. assert (Lj' : (j < length (s_s s))%nat) by lia.
+  destruct (qzerob _); [discriminate|]. destruct (qleb Hl H); [|destruct (qleb H Hs)]; inversion E; subst; cbn [s_l s_s].
+  all: split; [intros k Hk; rewrite !nth_upd_other by auto; auto|rewrite !nth_upd_same by assumption; lra].
+Qed.
